@@ -55,6 +55,15 @@ def parse(out):
     return r
 
 
+def inconclusive(r):
+    """the tool did not decide: time limit under load, or the JVM never got to the model (no memory, killed).  An evaluation error
+    of TLC on a record, an invariant violation or a rejected line are decisions and are NOT inconclusive."""
+    if r.get("ok") or r.get("rejected_line") is not None or r.get("violated"):
+        return False
+    out = r.get("out", "")
+    return bool(r.get("timeout")) or "Computing initial states" not in out or "OutOfMemoryError" in out or "insufficient memory" in out
+
+
 def run(workdir, module, cfg, workers=1, timeout=600, env=None, xmx="2g", xss="32m", simulate=None, depth=None, extra=()):
     md = os.path.join(workdir, "md_" + module + "_" + os.path.basename(cfg).replace(".cfg", ""))
     shutil.rmtree(md, ignore_errors=True)
